@@ -870,17 +870,21 @@ func (s *Stream) handshake(addr string, headers []Header, callback func(err erro
 	if err != nil {
 		callback(err, nil)
 	} else {
-		s.dial(url, func(err error, stream sonic.Stream) {
-			if err == nil {
-				err = s.upgrade(url, stream, headers)
+		var stream sonic.Stream
+		s.dial(url, func(derr error, dstream sonic.Stream) {
+			if derr == nil {
+				derr = s.upgrade(url, dstream, headers)
 			}
-			if err != nil {
-				// Do not leave the connection half-open when the transport could not be adapted or the upgrade
-				// failed: the caller only gets an error and a terminated stream.
-				_ = s.CloseNextLayer()
-			}
-			callback(err, stream)
+			err, stream = derr, dstream
 		})
+		if err != nil {
+			// Do not leave the connection half-open when the transport could not be adapted or the upgrade
+			// failed: the caller only gets an error and a terminated stream. This must happen after dial has
+			// returned: its callback runs inside RawConn.Control, which holds a reference to the descriptor,
+			// and net.Conn.Close waits for all references to be released.
+			_ = s.CloseNextLayer()
+		}
+		callback(err, stream)
 	}
 }
 
